@@ -888,6 +888,30 @@ impl Interpreter {
     // Full Runtime API (imports + orders)
     // ═══════════════════════════════════════════════════════════════════════════
 
+    /// Forget everything that belonged to an earlier run on this interpreter.
+    ///
+    /// A run can end without unwinding: the host may stop stepping it, leave it suspended
+    /// forever, or it may have failed with an uncaught error deep inside calls and blocks.
+    /// Its scopes, call-stack entries, orders and suspended contexts must not become part of
+    /// the run that `prepare()` / `eval()` starts now. Deliberate effects on the global
+    /// object, loaded modules and module sources the host has provided are kept.
+    fn discard_previous_run(&mut self) {
+        self.active_vm = None;
+        self.active_module_path = None;
+        self.active_saved_env = None;
+        self.active_module_env = None;
+        self.env = self.global_env.cheap_clone();
+        self.env_guards.clear();
+        self.call_stack.clear();
+        self.exports.clear();
+        self.pending_orders.clear();
+        self.order_responses.clear();
+        self.cancelled_orders.clear();
+        self.suspended_for_order = None;
+        self.wait_graph = WaitGraph::new();
+        self.pending_program = None;
+    }
+
     /// Evaluate TypeScript/JavaScript code with full runtime support.
     ///
     /// The optional `module_path` is used as the base for resolving relative imports.
@@ -909,10 +933,10 @@ impl Interpreter {
         use crate::compiler::Compiler;
         use bytecode_vm::BytecodeVM;
 
-        // Set main module path if this is the entry point
-        if self.main_module_path.is_none() {
-            self.main_module_path = module_path.clone();
-        }
+        self.discard_previous_run();
+
+        // This is the entry point: its path is the main module path
+        self.main_module_path = module_path.clone();
         self.current_module_path = module_path.clone();
 
         // Parse the source
@@ -1406,10 +1430,10 @@ impl Interpreter {
         use crate::compiler::Compiler;
         use bytecode_vm::BytecodeVM;
 
-        // Set main module path if this is the entry point
-        if self.main_module_path.is_none() {
-            self.main_module_path = module_path.clone();
-        }
+        self.discard_previous_run();
+
+        // This is the entry point: its path is the main module path
+        self.main_module_path = module_path.clone();
         self.current_module_path = module_path.clone();
 
         // Parse the source
